@@ -14,7 +14,17 @@ Monitors
   names         (W) multi-character generator names through every documented
                 route (a*b strings on parse_simple=False representations, lists
                 of names on simple ones, explicit parse_simple=False), the empty
-                word, grouping parentheses.
+                word, grouping parentheses; names with non-alphanumeric characters
+                other than the reserved * ( ) (x', t.1, g-2; 'x' next to "x'");
+                the same syntax on representations derived from such a one;
+                several words in one elements() call, long words listed before
+                the short ones.
+  naming        (H/W) representations created with their own inverse-naming map
+                (invert_gen=, 'x' <-> 'xinv'), objects derived from them (copy,
+                wrapping, conjugate, dual, compose, adjoint, ...) to two levels,
+                generators re-assigned on the derived objects: words with
+                inverse letters by that map against a dict model; the history
+                checker applies inverse-letter / free-reduction with the map.
   reassign      (H/W) histories of assigning / re-assigning generators (lower or
                 upper name first, explicit inverses, copies and derived
                 representations in between) against a dict model; no cross-talk
@@ -48,7 +58,9 @@ RULE = ("cases = (generator class in {real, complex, exact-integer unimodular, "
         "stressed cond<=1e4, orthogonal}, dimension 1..5, 1..4 generators, naming "
         "scheme, evaluation route in {rep[w], element, elements, list word}, word "
         "family: ALL words to length 4..8 (dense) or random words to length 40 "
-        "with planted cancellations) x derived construction; non-trivial = the word "
+        "with planted cancellations) x derived construction; inverse-naming map in "
+        "{case swap, suffix, prime, sign, letter pairs, upper tail} x derivation chain "
+        "x re-assignment; non-trivial = the word "
         "has >= 2 letters or the check concerns the empty word / an inverse letter; "
         "distinct = distinct (workload, class, dimension, #generators, route / "
         "derived kind / history op-kinds, length bucket) signatures")
@@ -66,6 +78,14 @@ ASSUMPTIONS = [
     "product law), the basis not being part of the property",
     "the homomorphism handed to compose() is an input of the program: its value at "
     "the reference image is the expected value",
+    "generator names are those the library accepts on assignment (one ASCII letter at "
+    "least, a single case, none of the reserved characters * ( )); names containing "
+    "whitespace are not driven",
+    "the inverse-naming map handed to the constructor (invert_gen=) is an input of the "
+    "program (an involution on names); copies, wrappings and everything built through "
+    "compose keep the generator names, hence the same pairs (g, g^-1); subgroup / tensor "
+    "product create a NEW representation paired by the default case swap and are judged "
+    "under that convention only",
 ]
 ANCHORS = [("geometry_tools/representation.py", q) for q in (
     "Representation.parse_word", "Representation.element", "Representation.__init__",
@@ -120,6 +140,8 @@ TOL_STRESSED = 1e-8
 
 _reps = weakref.WeakKeyDictionary()     # rep -> {"serial", "epoch", "norms"}
 _labels = weakref.WeakKeyDictionary()   # rep -> input-class label given by the workload
+_namings = weakref.WeakKeyDictionary()  # rep -> inverse-naming map given by the workload
+_naming_by_serial = {}                  # serial -> the same map, for the offline checker
 _serial = itertools.count(1)
 _log = []                               # (serial, epoch, tokens, matrix, scale, cls)
 _stats = {"word_values": 0, "set_generator": 0, "epochs_checked": 0,
@@ -142,6 +164,18 @@ def tag(rep, *label):
     route / generator class); the history checker puts it in its keys."""
     try:
         _labels[rep] = "/".join(str(x) for x in label)
+    except TypeError:
+        pass
+    return rep
+
+
+def tag_naming(rep, inv):
+    """the workload created `rep` with (or derived it from a representation
+    with) the inverse-naming map `inv` (an input of the program, e.g.
+    'x' <-> 'xinv'): the history checker uses it for the inverse-letter and
+    free-reduction laws instead of the default case swap."""
+    try:
+        _namings[rep] = inv
     except TypeError:
         pass
     return rep
@@ -181,6 +215,9 @@ def _hook_word_value(call):
     for t in tokens:
         sc *= max(st["norms"].get(t, 1.0), 1.0)
     _stats["word_values"] += 1
+    inv = _namings.get(rep)
+    if inv is not None:
+        _naming_by_serial[st["serial"]] = inv
     _log.append((st["serial"], st["epoch"], tokens,
                  np.array(call.result, copy=True), sc,
                  "%s:%s" % (type(rep).__name__, _labels.get(rep, "unlabelled"))))
@@ -206,6 +243,8 @@ def flush_history(run, stressed=False):
     mon = run.monitor("history-law")
     entries = list(_log)
     del _log[:]
+    namings = dict(_naming_by_serial)
+    _naming_by_serial.clear()
     groups = {}
     for serial, epoch, tokens, M, sc, cls in entries:
         groups.setdefault((serial, epoch), []).append((tokens, M, sc, cls))
@@ -215,6 +254,10 @@ def flush_history(run, stressed=False):
         table = {}
         scales = {}
         cls = items[0][3]
+        # inverse-naming convention of this representation: the default case
+        # swap unless the workload registered another map (seeded change
+        # C05-r4-1: derived representations losing a custom invert_gen)
+        inv = namings.get(serial)
         for tokens, M, sc, _c in items:
             if tokens in table:
                 A, B = _numeric(table[tokens]), _numeric(M)
@@ -275,15 +318,16 @@ def flush_history(run, stressed=False):
                                rho_uv=M), exact)
             # inverse letter
             if m == 1:
-                G = (rw.inv_name(tokens[0]),)
-                if G in table and rw.is_lower(tokens[0]):
+                G = ((inv or rw.inv_name)(tokens[0]),)
+                if G in table and (rw.is_lower(tokens[0]) if inv is None
+                                   else tokens[0] <= G[0]):
                     MG = table[G]
                     judge("inverse-letter", _numeric(M) @ _numeric(MG), np.eye(n),
                           scales[tokens] * scales[G],
                           "rho(g) rho(G) != I: the inverse letter is not mapped to the inverse matrix",
                           dict(wit0, g=tokens[0], rho_g=M, rho_G=MG), False)
             # free reduction
-            red = rw.free_reduce(tokens)
+            red = rw.free_reduce(tokens, inv)
             if red != tokens and red in table:
                 judge("free-reduction", M, table[red], scales[tokens],
                       "rho(w) != rho(reduce(w))",
@@ -299,6 +343,7 @@ def setup(run):
     run.monitor("history-law", min_events=300)
     run.monitor("word-value", min_events=300)
     run.monitor("names", min_events=20)
+    run.monitor("naming", min_events=30)
     run.monitor("reassign", min_events=30)
     run.monitor("derived", min_events=100)
     run.monitor("wrapping", min_events=20)
@@ -501,7 +546,19 @@ def wl_random(run, rng, idx):
 
 NAME_POOLS = [["s1", "s2", "s3"], ["word1", "word2"], ["x", "yy", "zzz"],
               ["g_1", "g_2", "g_11"], ["ab", "a", "b"], ["t"], ["1a", "2a"], ["a", "aa"],
-              ["s", "t", "st"]]
+              ["s", "t", "st"],
+              # names with characters that are neither alphanumeric nor reserved:
+              # the library reserves exactly '*', '(' and ')' (and asks for one
+              # ASCII letter and a single case), so a prime, dot, dash, bracket ...
+              # belongs to the name, in assignment and in words alike.  Several
+              # pools contain a name whose alphanumeric prefix is itself a
+              # generator ('x' and "x'"): a tokeniser that cuts names at such a
+              # character silently evaluates another generator (seeded change
+              # C05-r4-3: parse_word collecting \w+ tokens)
+              ["x", "x'", "y"], ["t.1", "g-2", "t"], ["a_b", "a", "b"],
+              ["s+", "s", "s++"], ["g[1]", "g[2]", "g"], ["a/b", "a^-1", "b"],
+              ["x,y", "x", "y"], ["p'", "p''", "q:2"], ["x\u00e9", "x", "\u00e91y"],
+              ["u!", "u?", "u#", "u"], ["k|", "k&k", "k=", "k~1"]]
 
 
 def wl_names(run, rng, idx):
@@ -627,6 +684,14 @@ def wl_names(run, rng, idx):
             pick = [g[int(i)] for i in rng.permutation(len(g))[:3]]
             pre = tuple(rw.random_word(rng, letters, int(rng.integers(0, 2))))
             batch.extend(pre + tuple(t) for t in pick)
+        # the order of the list is the caller's: long words before the short
+        # ones they are built from, so that the permutation sorting the list by
+        # length is not an involution (a 3-cycle at least), at either end of the
+        # batch (seeded change C08-r4-2: elements() evaluating in length order
+        # and applying the sorting permutation twice instead of inverting it)
+        lw_ = tuple(rw.random_word(rng, letters, int(rng.integers(3, 7))))
+        batch = [lw_, (letters[0],), (letters[1],), (letters[0], letters[1])] + batch \
+            + [lw_ + lw_[:2], (letters[1],), (letters[1], letters[0]), lw_[:3]]
         case = {"names": names, "mode": mode, "route": "elements-batch",
                 "words": [list(t) for t in batch], "kind": kind, "n": n,
                 "generators": {g: gens[g] for g in names}}
@@ -649,10 +714,144 @@ def wl_names(run, rng, idx):
                           "elements(words)[%d] is not the image of word %d of the batch %r"
                           % (j, j, surf), dict(case, index=j))
             run.note_class("names-batch", tuple(names), mode, kind)
+    if mode != "override":
+        _names_derived(run, rng, mon, rep, mode, names, letters, gens, tab, norms, kind, n, idx)
     flush_history(run)
     if idx < 2:
         run.sample({"workload": "names", "names": names, "mode": mode,
                     "word": rw.to_surface(words[4], simple=False)})
+
+
+def unwrap_value(val):
+    """library value (matrix, stack of matrices, Transformation / Isometry,
+    composite of those) -> numpy array in the column-vector convention."""
+    if hasattr(val, "matrix"):
+        return np.swapaxes(_numeric(val.matrix), -1, -2)
+    return _numeric(val)
+
+
+NAMES_DERIVED = ["copy", "conjugate", "dual", "projective-wrap", "compose(identity)",
+                 "subgroup(dict)", "astype(complex)"]
+
+
+def _names_derived(run, rng, mon, rep, mode, names, letters, gens, tab, norms, kind, n, idx):
+    """representations derived from one with multi-character names keep its
+    names AND its word syntax: sigma('x*(y*X)') = F(rho(x y X)) through rep[w],
+    element(), elements() with '*' and grouping parentheses on parse_simple=False
+    representations, lists of names on simple ones (seeded changes C05-r4-3,
+    C05-r4-1: the non-matrix configuration -- parse mode, naming -- of a
+    derived representation)."""
+    from geometry_tools.representation import Representation
+    from geometry_tools import projective
+    star = mode == "star"
+    cplx = kind == "complex"
+    words = [(letters[0],), (letters[-1],)]
+    for _ in range(3):
+        words.append(rw.random_word(rng, letters, int(rng.integers(2, 7)), cancel=0.2))
+    base = {"names": names, "mode": mode, "kind": kind, "n": n,
+            "generators": {g: gens[g] for g in names}}
+    for j in range(3):
+        which = NAMES_DERIVED[(3 * idx + j) % len(NAMES_DERIVED)]
+        wrapped = False
+        alpha = letters
+        case = dict(base, derived=which)
+        run.current_case = case
+        try:
+            if which == "copy":
+                S, TS = Representation(rep), dict(tab)
+            elif which == "conjugate":
+                C = rw.rand_cond(rng, n, 10.0, complex_=cplx)
+                Ci = rw.inverse(C)
+                S = rep.conjugate(C.copy())
+                TS = {x: Ci @ np.asarray(tab[x]) @ C for x in tab}
+            elif which == "dual":
+                S = rep.dual()
+                TS = {x: np.asarray(tab[rw.inv_name(x)]).T for x in tab}
+            elif which == "projective-wrap":
+                S, TS, wrapped = projective.ProjectiveRepresentation(rep), dict(tab), True
+            elif which == "compose(identity)":
+                S, TS = rep.compose(lambda M: M.copy()), dict(tab)
+            elif which == "astype(complex)":
+                S = rep.astype(complex)
+                TS = {x: np.asarray(tab[x]).astype(complex) for x in tab}
+            else:
+                # a subgroup named after the same pool, on words in the pool's
+                # syntax; the new representation is a simple one (lists of names)
+                imgs = {g: rw.random_word(rng, letters, int(rng.integers(1, 4)))
+                        for g in names[:2]}
+                S = rep.subgroup({g: (rw.to_surface(w, simple=False) if star else list(w))
+                                  for g, w in imgs.items()})
+                TS = rw.table({g: rw.evaluate(w, tab) for g, w in imgs.items()},
+                              {g: rw.evaluate(rw.formal_inverse(w), tab)
+                               for g, w in imgs.items()})
+                alpha = rw.alphabet(list(imgs))
+                case = dict(case, subgroup_words={g: list(w) for g, w in imgs.items()})
+        except Exception as e:
+            mon.fail("names/exception:%s/derived:%s/build" % (type(e).__name__, which),
+                     "%s of a representation with generators %r raised %s: %s"
+                     % (which, names, type(e).__name__, str(e)[:100]), case,
+                     tb=traceback.format_exc())
+            continue
+        tag(S, "names", mode, which)
+        sub = which.startswith("subgroup")
+        if set(S.generators) != set(alpha):
+            mon.fail("names/derived:%s/generator-dict" % which,
+                     "%s has generators %r, expected %r"
+                     % (which, sorted(S.generators), sorted(alpha)), case)
+            continue
+        nT = rw.letter_norms(TS)
+        ws = words if not sub else [(alpha[0],), (alpha[1],)] + [
+            rw.random_word(rng, alpha, int(rng.integers(2, 6)), cancel=0.2) for _ in range(2)]
+        for tokens in ws:
+            if star and not sub:
+                s_ = rw.to_surface(tokens, simple=False)
+                sp = rw.to_surface(tokens, simple=False, parens=True, rng=rng)
+                calls = [("getitem", "star-syntax", s_, lambda: S[s_]),
+                         ("element", "star-syntax", s_, lambda: S.element(s_)),
+                         ("elements", "star-syntax", s_, lambda: S.elements([s_, sp])),
+                         ("getitem", "parenthesised", sp, lambda: S[sp]),
+                         ("element-explicit", "parenthesised", sp,
+                          lambda: S.element(sp, parse_simple=False))]
+            else:
+                lst = list(tokens)
+                calls = [("getitem-list", "list-of-names", lst, lambda: S[lst]),
+                         ("elements-list", "list-of-names", lst, lambda: S.elements([lst, lst]))]
+            ref = rw.evaluate(tokens, TS)
+            sc = rw.scale(tokens, nT)
+            for route, rclass, surface, call in calls:
+                cw = dict(case, route=route, word=list(tokens), surface=surface)
+                run.current_case = cw
+                try:
+                    val = call()
+                except Exception as e:
+                    mon.fail("names/exception:%s/derived:%s/%s" % (type(e).__name__, which, rclass),
+                             "%s of the %s representation raised %s: %s for the word %r over "
+                             "generators %r" % (route, which, type(e).__name__, str(e)[:100],
+                                                surface, sorted(S.generators)), cw,
+                             tb=traceback.format_exc())
+                    continue
+                L = unwrap_value(val)
+                if route.startswith("elements"):
+                    if L.shape != (2,) + ref.shape:
+                        mon.fail("names/derived:%s/shape" % which, "elements() of two words has "
+                                 "shape %r" % (L.shape,), cw)
+                        continue
+                    units = [L[0], L[1]]
+                else:
+                    units = [L]
+                for U in units:
+                    if U.shape != ref.shape:
+                        mon.fail("names/derived:%s/shape" % which, "value has shape %r, expected %r"
+                                 % (U.shape, ref.shape), cw)
+                        continue
+                    if wrapped:
+                        r = proj_residual(U, ref) / max(sc / max(float(np.max(np.abs(ref))), 1e-300), 1.0)
+                    else:
+                        r = float(np.max(np.abs(U - ref))) / sc
+                    mon.judge(r, 1e-8, "names/derived:%s/%s" % (which, rclass),
+                              "%s of a representation with multi-character names: the value of "
+                              "the word differs from F(rho(w))" % which, cw)
+            run.note_class("names-derived", mode, "+".join(names), which)
 
 
 # ---------------------------------------------------------------------------
@@ -766,6 +965,326 @@ def wl_reassign(run, rng, idx):
     flush_history(run)
     if idx < 2:
         run.sample({"workload": "reassign", "history": history})
+
+
+# ---------------------------------------------------------------------------
+# H/W: representations created with their own inverse-naming map (invert_gen=)
+#
+# The generators dict stores the inverse of generator g under invert_gen(g); the
+# default is the case swap, but the constructor takes any involution on names
+# ('x' <-> 'xinv').  The homomorphism law is stated for every representation,
+# hence also for these and for everything derived from them: the derived object
+# carries the same generator names, so after re-assigning one of its generators
+# the inverse letter must evaluate to the inverse of the new matrix, and a
+# further derivation must see the same pairs (g, g^-1).  (Seeded change
+# C05-r4-1: the constructor fixing invert_gen before looking at the source
+# representation, so that copies / conjugates / duals ... fall back to the case
+# swap -- invisible until a generator of the derived object is re-assigned or a
+# second derivation is made from it.)
+
+
+def _naming_suffix(g):
+    return g[:-3] if g.endswith("inv") else g + "inv"
+
+
+_PAIRS = dict(zip("abcdef", "badcfe"))
+
+
+def _naming_pairs(g):
+    return _PAIRS[g]
+
+
+def _naming_prime(g):
+    return g[:-1] if g.endswith("'") else g + "'"
+
+
+def _naming_sign(g):
+    return g[:-1] + ("-" if g.endswith("+") else "+")
+
+
+def _naming_upper_tail(g):
+    return g[:-1].lower() if g.endswith("_") else g.upper() + "_"
+
+
+def _naming_swapcase(g):
+    return g.swapcase()
+
+
+# (label, inverse-naming map, names the generators are first assigned under)
+NAMINGS = [
+    ("suffix-inv", _naming_suffix, ["x", "y", "z"]),
+    ("letter-pairs", _naming_pairs, ["a", "c", "e"]),       # 'ab' is the empty word
+    ("prime", _naming_prime, ["x", "y", "z"]),
+    ("sign", _naming_sign, ["s+", "t+", "u+"]),
+    ("upper-tail", _naming_upper_tail, ["x", "y1", "z"]),
+    ("explicit-case-swap", _naming_swapcase, ["s1", "t", "u2"]),
+]
+
+NAMING_DERIVE = ["copy", "conjugate", "dual", "wrap-projective", "compose(identity)",
+                 "copy-subset", "astype(complex)", "wrap-hyperbolic", "gln_adjoint",
+                 "change_base_ring(None)", "compose(kron,compute_inverses)",
+                 "conjugate(inv_mat)", "subgroup"]
+
+
+class _Named:
+    """a live representation of the inverse-naming workload with its model."""
+
+    def __init__(self, label, R, T, inv, alpha, star, wrap, isom, level, dim):
+        self.label, self.R, self.T, self.inv, self.alpha = label, R, T, inv, list(alpha)
+        self.star, self.wrap, self.isom, self.level, self.dim = star, wrap, isom, level, dim
+        tag_naming(R, inv)
+
+
+def wl_naming(run, rng, idx):
+    from geometry_tools.representation import Representation
+    from geometry_tools import projective, hyperbolic
+    mon = run.monitor("naming")
+    nlabel, inv, first_names = NAMINGS[idx % len(NAMINGS)]
+    star = bool((idx // len(NAMINGS)) % 2)          # '*' syntax or lists / simple strings
+    isom = idx % 4 == 3                              # generators in O(d,1)
+    kind = ("real", "complex", "int", "real")[idx % 4]
+    n = 1 + (idx // 3) % 3 if not isom else 2 + (idx // 4) % 3
+    k = 1 + int(rng.integers(0, 3))
+    names = first_names[:k]
+    alpha = rw.alphabet(names, inv)
+    one_char = all(len(x) == 1 for x in alpha)
+    WRAP = {"proj": (projective.ProjectiveRepresentation, projective.Transformation),
+            "hyp": (hyperbolic.HyperbolicRepresentation, hyperbolic.Isometry)}
+    history = []
+    base_case = {"naming": nlabel, "star_syntax": star, "kind": kind, "n": n,
+                 "isometries": isom, "history": history}
+
+    def fresh(obj_isom, dim, cplx_ok=True):
+        if obj_isom:
+            M = rh.rand_isometry(rng, dim - 1, tmax=1.0)
+            return M, rw.inverse(M)
+        if dim != n:
+            M = rw.rand_cond(rng, dim, 20.0)
+            return M, rw.inverse(M)
+        M, Mi = gen_matrix(rng, dim, kind if cplx_ok else "real")
+        return M, (Mi if Mi is not None else rw.inverse(M))
+
+    def give(obj, M):
+        M = np.array(M, copy=True)
+        return WRAP[obj.wrap][1](M, column_vectors=True) if obj.wrap else M
+
+    # ---- the base representation: generators assigned in random order, some
+    # through their inverse name
+    R = Representation(invert_gen=inv, parse_simple=not star)
+    T = {}
+    for g in [names[i] for i in rng.permutation(k)]:
+        M, Mi = fresh(isom, n)
+        if rng.random() < 0.35:
+            R[inv(g)] = np.array(Mi, copy=True)
+            T[inv(g)], T[g] = np.asarray(Mi), rw.inverse(Mi) if kind != "int" or isom else M
+            history.append(["set", "base", inv(g)])
+        else:
+            R[g] = np.array(M, copy=True)
+            T[g], T[inv(g)] = np.asarray(M), np.asarray(Mi)
+            history.append(["set", "base", g])
+    base = _Named("base", tag(R, "naming", nlabel, "base"), T, inv, alpha, star, None,
+                  isom, 0, n)
+    live = [base]
+
+    def surface(obj, tokens, parens=False):
+        if obj.star:
+            return rw.to_surface(tokens, simple=False, parens=parens, rng=rng)
+        if one_char and obj.inv is inv and rng.random() < 0.5:
+            return "".join(tokens)
+        return list(tokens)
+
+    def check(obj, after):
+        """words in the letters of `obj` (with inverse letters by ITS naming)
+        against the model table."""
+        Tm = obj.T
+        nT = rw.letter_norms(Tm)
+        a = obj.alpha
+        g0 = a[int(rng.integers(0, len(a)))]
+        ws = [(g0,), (obj.inv(g0),), (g0, obj.inv(g0)), ()]
+        for _ in range(2):
+            ws.append(rw.random_word(rng, a, int(rng.integers(2, 7)), cancel=0.25, inv=obj.inv))
+        w = ws[-1]
+        ws += [w[:1], w[1:], rw.formal_inverse(w, obj.inv)]
+        keytail = "%s/level%d/after:%s" % (obj.label.split("#")[0], obj.level, after)
+        for j, tokens in enumerate(ws):
+            route = ("getitem", "elements", "element")[int(rng.integers(0, 3))]
+            sf = surface(obj, tokens, parens=(j % 2 == 1))
+            case = dict(base_case, object=obj.label, after=after, word=list(tokens),
+                        surface=sf, route=route,
+                        model={x: Tm[x] for x in a})
+            run.current_case = case
+            try:
+                if route == "getitem":
+                    val = obj.R[sf]
+                elif route == "element":
+                    val = obj.R.element(sf)
+                else:
+                    val = obj.R.elements([sf, sf])
+                L = unwrap_value(val)
+                if route == "elements":
+                    L = L[1] if L.ndim == 3 and L.shape[0] == 2 else np.zeros((0,))
+            except Exception as e:
+                mon.fail("naming/exception:%s/evaluate/%s" % (type(e).__name__, keytail),
+                         "evaluating %r on the %s representation raised %s: %s"
+                         % (sf, obj.label, type(e).__name__, str(e)[:100]), case,
+                         tb=traceback.format_exc())
+                continue
+            ref = rw.evaluate(tokens, Tm, obj.dim)
+            if L.shape != ref.shape:
+                mon.fail("naming/shape/" + keytail, "value has shape %r, expected %r"
+                         % (L.shape, ref.shape), case)
+                continue
+            sc = rw.scale(tokens, nT)
+            if obj.wrap:
+                r = proj_residual(L, ref) / max(sc / max(float(np.max(np.abs(ref))), 1e-300), 1.0)
+            else:
+                r = float(np.max(np.abs(L - ref))) / sc if L.size else 0.0
+            mon.judge(r, max(1e-8, _tol_for(L)), "naming/value/" + keytail,
+                      "a representation with its own inverse-naming map (or derived from "
+                      "one): the value of the word differs from the product of the letters' "
+                      "matrices, inverse letters by that map", case)
+        run.note_class("naming", nlabel, star, obj.label.split("#")[0], obj.level, after, kind)
+
+    def derive(which, obj):
+        """-> new _Named or None (not applicable to this object)."""
+        Rr, Tm, dim = obj.R, obj.T, obj.dim
+        a, oinv, ostar, wrap, oisom = obj.alpha, obj.inv, obj.star, obj.wrap, obj.isom
+        cplx = any(np.iscomplexobj(v) for v in Tm.values())
+        if which == "copy":
+            S, TS = type(Rr)(Rr), dict(Tm)
+        elif which == "copy-subset":
+            sub = [a[0], oinv(a[0])]
+            S, TS, a = type(Rr)(Rr, generator_names=list(sub)), {x: Tm[x] for x in sub}, sub
+        elif which in ("conjugate", "conjugate(inv_mat)"):
+            if oisom:
+                C = rh.rand_isometry(rng, dim - 1, tmax=1.0)
+            else:
+                C = rw.rand_cond(rng, dim, 10.0, complex_=cplx)
+            Ci = rw.inverse(C)
+            if which == "conjugate":
+                S = Rr.conjugate(give(obj, C))
+            else:
+                S = Rr.conjugate(give(obj, C), inv_mat=give(obj, Ci))
+            TS = {x: Ci @ np.asarray(Tm[x]) @ C for x in Tm}
+        elif which == "dual":
+            S, TS = Rr.dual(), {x: np.asarray(Tm[oinv(x)]).T for x in Tm}
+        elif which == "compose(identity)":
+            S, TS = Rr.compose(lambda M: M.copy()), dict(Tm)
+            if wrap == "hyp":
+                wrap = "proj"       # HyperbolicRepresentation.compose: projective
+        elif which == "change_base_ring(None)":
+            S, TS = Rr.change_base_ring(None), dict(Tm)
+        elif which == "astype(complex)":
+            if wrap or cplx:
+                return None
+            S, TS, oisom = Rr.astype(complex), {x: np.asarray(Tm[x]).astype(complex)
+                                                for x in Tm}, False
+        elif which == "wrap-projective":
+            if wrap == "proj":
+                return None
+            S, TS, wrap = projective.ProjectiveRepresentation(Rr), dict(Tm), "proj"
+        elif which == "wrap-hyperbolic":
+            if wrap or not oisom:
+                return None
+            S, TS, wrap = hyperbolic.HyperbolicRepresentation(Rr), dict(Tm), "hyp"
+        elif which == "gln_adjoint":
+            if dim > 2 or wrap == "hyp":
+                return None
+            S = Rr.gln_adjoint()
+            TS = {x: np.kron(np.asarray(Tm[x]), np.asarray(Tm[oinv(x)]).T) for x in Tm}
+            dim, oisom = dim * dim, False
+        elif which == "compose(kron,compute_inverses)":
+            if dim > 2 or wrap:
+                return None
+            S = Rr.compose(lambda M: np.kron(M, M), compute_inverses=True)
+            TS = {x: np.kron(np.asarray(Tm[x]), np.asarray(Tm[x])) for x in Tm}
+            dim, oisom = dim * dim, False
+        elif which == "subgroup":
+            # a NEW representation: its generators are named by the caller and
+            # paired by the default case swap; the words are in the parent's
+            # letters and syntax
+            if wrap:
+                return None
+            imgs = {g: rw.random_word(rng, a, int(rng.integers(1, 4)), inv=oinv)
+                    for g in ("p", "q")}
+            sw = {g: (rw.to_surface(w, simple=False) if ostar else list(w))
+                  for g, w in imgs.items()}
+            S = Rr.subgroup(list(sw.values()), generator_names=list(sw))
+            TS = rw.table({g: rw.evaluate(w, Tm, dim) for g, w in imgs.items()},
+                          {g: rw.evaluate(rw.formal_inverse(w, oinv), Tm, dim)
+                           for g, w in imgs.items()})
+            a, oinv, ostar, oisom = rw.alphabet(list(imgs)), rw.inv_name, False, False
+        else:
+            raise ValueError(which)
+        label = "%s#%d" % (which, len(live))
+        tag(S, "naming", nlabel, which)
+        return _Named(label, S, TS, oinv, a, ostar, wrap, oisom, obj.level + 1, dim)
+
+    def do_derive(which, obj):
+        case = dict(base_case, derive=which, source=obj.label)
+        run.current_case = case
+        try:
+            new = derive(which, obj)
+            if new is None:
+                which = "copy"
+                new = derive("copy", obj)
+        except Exception as e:
+            mon.fail("naming/exception:%s/derive:%s/from:%s/level%d"
+                     % (type(e).__name__, which, obj.label.split("#")[0], obj.level),
+                     "%s of the %s representation (inverse naming %s) raised %s: %s"
+                     % (which, obj.label, nlabel, type(e).__name__, str(e)[:100]), case,
+                     tb=traceback.format_exc())
+            return None
+        history.append(["derive-" + which, obj.label, new.label])
+        if set(new.R.generators) != set(new.T):
+            mon.fail("naming/generator-dict/%s/level%d" % (which, new.level),
+                     "%s has generators %r, expected %r"
+                     % (new.label, sorted(new.R.generators), sorted(new.T)), case)
+            return None
+        live.append(new)
+        check(new, "derive")
+        return new
+
+    def do_set(obj):
+        g = obj.alpha[int(rng.integers(0, len(obj.alpha)))]
+        M, Mi = fresh(obj.isom, obj.dim, cplx_ok=not obj.wrap)
+        case = dict(base_case, object=obj.label, set=g, matrix=M)
+        run.current_case = case
+        explicit = rng.random() < 0.25
+        try:
+            if explicit:
+                obj.R.set_generator(g, give(obj, M), compute_inverse=False)
+                obj.R.set_generator(obj.inv(g), give(obj, Mi), compute_inverse=False)
+            else:
+                obj.R[g] = give(obj, M)
+        except Exception as e:
+            mon.fail("naming/exception:%s/set/%s" % (type(e).__name__, obj.label.split("#")[0]),
+                     "re-assigning %r on the %s representation raised %s: %s"
+                     % (g, obj.label, type(e).__name__, str(e)[:100]), case,
+                     tb=traceback.format_exc())
+            return
+        obj.T[g], obj.T[obj.inv(g)] = np.asarray(M), np.asarray(Mi)
+        history.append(["set-explicit-inverse" if explicit else "set", obj.label, g])
+        for o in live:
+            check(o, "set" if o is obj else "set-on-another")
+
+    nd = len(NAMING_DERIVE)
+    check(base, "construction")
+    d1 = do_derive(NAMING_DERIVE[idx % nd], base)
+    # second-level derivation straight away: base.K2().K3()
+    mid = do_derive(NAMING_DERIVE[(idx // 2) % nd], base)
+    if mid is not None:
+        do_derive(NAMING_DERIVE[(idx // 3 + 2) % nd], mid)
+    # re-assign on the derived object, then derive from it again
+    if d1 is not None:
+        do_set(d1)
+        d2 = do_derive(NAMING_DERIVE[(idx // 5 + 1) % nd], d1)
+        if d2 is not None:
+            do_set(d2)
+    do_set(base)
+    flush_history(run)
+    if idx < 2:
+        run.sample({"workload": "inverse-naming", "naming": nlabel, "history": history})
 
 
 # ---------------------------------------------------------------------------
@@ -1554,6 +2073,7 @@ WORKLOADS = [
     Workload("random-words", wl_random, quick=150, thorough=9000),
     Workload("names", wl_names, quick=112, thorough=4480),
     Workload("reassign", wl_reassign, quick=100, thorough=6000),
+    Workload("inverse-naming", wl_naming, quick=104, thorough=4160),
     Workload("derived", wl_derived, quick=50, thorough=3000),
     Workload("wrapping", wl_wrapping, quick=32, thorough=1600),
     Workload("fox", wl_fox, quick=72, thorough=4500),
